@@ -10,6 +10,7 @@
 import Upnp.Lemmas.C02Total
 import Upnp.Lemmas.C02Listener
 import Upnp.Lemmas.C02Interface
+import Upnp.Props.C01
 import Upnp.Gen.C01Ssdp
 import Upnp.Gen.C02Recv
 import Upnp.Gen.C02Sites
@@ -526,25 +527,151 @@ theorem decode_guarantee : DecodeGuarantee := by
   obtain ⟨pairs, rfl⟩ := decodeX_ok' hd
   exact decode_udn_guarantee pairs _ now loc src
 
-/-- the composed statements without hypothesis -/
+/-- `ClockOk` is the physical clock bound and nothing else: `_timestamp`, as the tracker model reads it
+    from the decoded map, IS the clock value of the decode (`tsOf_decoded`: the call metadata wins
+    over any received `_timestamp` header, and the decimal rendering is read back exactly) -/
+theorem tsOf_hsOf {d : Bytes} {loc : Option Addr} {src : Addr} {now : Int} {rl : Bytes} {h : Hdrs}
+    (hd : decodeX Fixes.all d loc src now = .ok (rl, h)) : C03.Parse.tsOf (hsOf h) = now := by
+  obtain ⟨pairs, rfl⟩ := decodeX_ok' hd
+  exact tsOf_decoded pairs _ now loc src
+
+theorem clockOk_of_le (trk : C03.Cfg) (d : Bytes) (loc : Option Addr) (src : Addr) (now : Int)
+    (h : now ≤ trk.tMax) : ClockOk trk d loc src now := by
+  intro rl hh hd
+  rw [tsOf_hsOf hd]; exact h
+
+/-- non-vacuity of the clock hypothesis: any clock reading up to `datetime.max` satisfies it -/
+example : ClockOk C03.specCfg [] none { host := [], port := 0 } 0 := clockOk_of_le _ _ _ _ _ (by decide)
+
+/-- the composed statements; the only hypothesis left is the clock bound `now ≤ datetime.max` -/
 theorem dropped_inert_closed (cfg : Cfg) (ep : Endpoint) (t t' : Tracker) (eff : Eff) (data : Bytes)
-    (loc : Option Addr) (src : Addr) (now : Int) (hclk : ClockOk cfg.trk data loc src now)
+    (loc : Option Addr) (src : Addr) (now : Int) (hnow : now ≤ cfg.trk.tMax)
     (hwf : classify cfg ep data loc src now = none)
     (h : recv Fixes.all cfg ep t data loc src now = .ok (t', eff)) : eff = noEff ∧ t' = t :=
-  dropped_inert decode_guarantee cfg ep t t' eff data loc src now hclk hwf h
+  dropped_inert decode_guarantee cfg ep t t' eff data loc src now (clockOk_of_le _ _ _ _ _ hnow) hwf h
 
 theorem dispatched_effect_closed (cfg : Cfg) (ep : Endpoint) (t t' : Tracker) (eff : Eff) (data : Bytes)
-    (loc : Option Addr) (src : Addr) (now : Int) (hclk : ClockOk cfg.trk data loc src now) (hn : C03.Inv t)
+    (loc : Option Addr) (src : Addr) (now : Int) (hnow : now ≤ cfg.trk.tMax) (hn : C03.Inv t)
     (h : recv Fixes.all cfg ep t data loc src now = .ok (t', eff)) :
     C03.Inv t' ∧ ∀ d, classify cfg ep data loc src now = some d → dispatchedM t' eff d :=
-  dispatched_effect decode_guarantee cfg ep t t' eff data loc src now hclk hn h
+  dispatched_effect decode_guarantee cfg ep t t' eff data loc src now (clockOk_of_le _ _ _ _ _ hnow) hn h
 
 theorem model_judged_ok_closed (cfg : Cfg) (ep : Endpoint) (t : Tracker) (data : Bytes) (loc : Option Addr)
-    (src : Addr) (now : Int) (hclk : ClockOk cfg.trk data loc src now) (hn : C03.Inv t)
+    (src : Addr) (now : Int) (hnow : now ≤ cfg.trk.tMax) (hn : C03.Inv t)
     (sortKeys : List String → List String) (hsort : ∀ l x, x ∈ sortKeys l ↔ x ∈ l) :
     ∃ o, obsOf t (recv Fixes.all cfg ep t data loc src now) sortKeys = some o
       ∧ ok (classify cfg ep data loc src now) o = true :=
-  model_judged_ok decode_guarantee cfg ep t data loc src now hclk hn sortKeys hsort
+  model_judged_ok decode_guarantee cfg ep t data loc src now (clockOk_of_le _ _ _ _ _ hnow) hn sortKeys hsort
+
+/-- **sequences**: in any sequence of datagrams (any endpoints, senders, clock readings up to
+    `datetime.max`), from any state, every datagram that is not a well-formed message for its
+    endpoint contributes `noEff` and leaves the tracker exactly as the previous datagram left it —
+    also between valid ones, with devices known and answers pending -/
+theorem recv_sequence_inert (cfg : Cfg) (t : Tracker) (pre : List (Endpoint × Bytes × Option Addr × Addr × Int))
+    (ep : Endpoint) (data : Bytes) (loc : Option Addr) (src : Addr) (now : Int)
+    (post : List (Endpoint × Bytes × Option Addr × Addr × Int))
+    (hnow : now ≤ cfg.trk.tMax) (hc : classify cfg ep data loc src now = none) :
+    ∃ t1 e1 t2 e2, recvAll Fixes.all cfg t pre = .ok (t1, e1) ∧ recvAll Fixes.all cfg t1 post = .ok (t2, e2)
+      ∧ recvAll Fixes.all cfg t (pre ++ (ep, data, loc, src, now) :: post) = .ok (t2, e1 ++ noEff :: e2) := by
+  obtain ⟨t1, e1, h1, _⟩ := recv_sequence_total cfg t pre
+  obtain ⟨t2, e2, h2, _⟩ := recv_sequence_total cfg t1 post
+  refine ⟨t1, e1, t2, e2, h1, h2, ?_⟩
+  obtain ⟨t', eff, hr⟩ := recv_total cfg ep t1 data loc src now
+  obtain ⟨he, ht⟩ := dropped_inert_closed cfg ep t1 t' eff data loc src now hnow hc hr
+  rw [he, ht] at hr
+  have happ : ∀ (l : List (Endpoint × Bytes × Option Addr × Addr × Int)) (s s' : Tracker) (es : List Eff)
+      (r : List (Endpoint × Bytes × Option Addr × Addr × Int)) (s'' : Tracker) (es' : List Eff),
+      recvAll Fixes.all cfg s l = .ok (s', es) → recvAll Fixes.all cfg s' r = .ok (s'', es') →
+      recvAll Fixes.all cfg s (l ++ r) = .ok (s'', es ++ es') := by
+    intro l
+    induction l with
+    | nil => intro s s' es r s'' es' ha hb; simp only [recvAll, Except.ok.injEq, Prod.mk.injEq] at ha; obtain ⟨rfl, rfl⟩ := ha; simpa using hb
+    | cons op l ih =>
+      intro s s' es r s'' es' ha hb
+      obtain ⟨ep', d', l', s0', n'⟩ := op
+      simp only [List.cons_append, recvAll] at ha ⊢
+      cases hx : recv Fixes.all cfg ep' s d' l' s0' n' with
+      | error e => rw [hx] at ha; cases ha
+      | ok p =>
+        obtain ⟨sm, em⟩ := p
+        rw [hx] at ha
+        dsimp only at ha ⊢
+        cases hy : recvAll Fixes.all cfg sm l with
+        | error e => rw [hy] at ha; cases ha
+        | ok q =>
+          obtain ⟨sq, eq⟩ := q
+          rw [hy] at ha
+          simp only [Except.ok.injEq, Prod.mk.injEq] at ha
+          obtain ⟨rfl, rfl⟩ := ha
+          rw [ih sm sq eq r s'' es' hy hb]
+          rfl
+  apply happ pre t t1 e1 _ t2 (noEff :: e2) h1
+  simp [recvAll, hr, h2]
+
+/-! ### a well-formedness that is not the model's own classifier read twice -/
+
+/-- **an externally characterised well-formed message is dispatched**: every `NOTIFY` the library's own
+    builder makes from a well-formed header map (C01's `wfHeaders`) that has `NTS: ssdp:alive` (name in any
+    spelling) and no `MAN` header is, from every sender, at every clock value, classified `notify` for
+    the advertisement listener — by `decode_build` (the decoder inverts the builder), not by unfolding
+    the classifier on itself; with `dispatched_effect` the listener's callback fires. -/
+theorem classify_built_alive (cfg : Cfg) (hpre : cfg.prefixes = Gen.C01Ssdp.ssdpPrefixes)
+    (sep : Bytes) (hsep : SepOk sep) (hs : List (Bytes × Bytes)) (hwf : wfHeaders Gen.C01Ssdp.metaKeys hs = true)
+    (hnts : ∃ p ∈ hs, lower p.1 = ofString "nts" ∧ p.2 = ofString "ssdp:alive")
+    (hman : ∀ p ∈ hs, lower p.1 ≠ ofString "man")
+    (loc : Option Addr) (src : Addr) (now : Int) :
+    classify cfg .adv (build sep (ofString "NOTIFY * HTTP/1.1") hs) loc src now = some .notify := by
+  have hsl : ofString "NOTIFY * HTTP/1.1" ∈ Gen.C01Ssdp.ssdpPrefixes := by decide
+  obtain ⟨_, hres, hd⟩ := wfHeaders_spec hwf
+  have hr : ∀ p ∈ hs, NotReserved (lower p.1) := fun p hp => notReserved_of (hres p hp)
+  have hdec : decodeX Fixes.all (build sep (ofString "NOTIFY * HTTP/1.1") hs) loc src now
+      = .ok (ofString "NOTIFY * HTTP/1.1", decoded hs loc src now) := by
+    rw [decoder_is_C01, decode_build_wire sep hsep _ hsl hs hwf]; rfl
+  have hgate := gate_build sep (ofString "NOTIFY * HTTP/1.1") hs hsl
+  unfold classify protocolRecv
+  rw [hpre]
+  simp only [hgate, Bool.not_true, Bool.false_eq_true, if_false, hdec]
+  -- the two look-ups of `advClassify`
+  have getL_eq : ∀ (k : String), lower (ofString k) = ofString k →
+      getL (decoded hs loc src now) k = CIDict.getitem lower (decoded hs loc src now) (ofString k) := by
+    intro k hk; unfold getL CIDict.getitem CIDict.getLower; rw [hk]
+  obtain ⟨p, hp, hpk, hpv⟩ := hnts
+  have hnts' : getL (decoded hs loc src now) "nts" = some (.str (ofString "ssdp:alive")) := by
+    rw [getL_eq "nts" (by decide), decoded_sent hd hr loc src now hp (by rw [hpk]; decide) (ofString "nts") (by rw [hpk]; decide), hpv]
+  have hman' : getL (decoded hs loc src now) "man" = none := by
+    rw [getL_eq "man" (by decide), decoded_get hd]
+    have l : lower (ofString "man") = ofString "man" := by decide
+    rw [l, callMeta_get?_none _ _ _ _ (by decide), lastCI_none (ofString "man") hman]
+    have : PyDict.get? (extras hs (udnOf hs) (withoutPort src)) (ofString "man") = none := by
+      rw [PyDict.get?_eq_none_iff]
+      intro hk
+      rcases (extras_keys hs _ _ _ hk).2 with x | x | x | x <;> revert x <;> decide
+    rw [this]; rfl
+  unfold advClassify
+  rw [hman', hnts']
+  decide
+
+/-- … hence, by `dispatched_effect`, the advertisement listener's callback fires for it (any tracker state
+    satisfying the invariant, any clock reading up to `datetime.max`) -/
+theorem built_alive_notifies (cfg : Cfg) (hpre : cfg.prefixes = Gen.C01Ssdp.ssdpPrefixes)
+    (sep : Bytes) (hsep : SepOk sep) (hs : List (Bytes × Bytes)) (hwf : wfHeaders Gen.C01Ssdp.metaKeys hs = true)
+    (hnts : ∃ p ∈ hs, lower p.1 = ofString "nts" ∧ p.2 = ofString "ssdp:alive")
+    (hman : ∀ p ∈ hs, lower p.1 ≠ ofString "man")
+    (loc : Option Addr) (src : Addr) (now : Int) (hnow : now ≤ cfg.trk.tMax) (t : Tracker) (hn : C03.Inv t) :
+    ∃ t' eff, recv Fixes.all cfg .adv t (build sep (ofString "NOTIFY * HTTP/1.1") hs) loc src now = .ok (t', eff)
+      ∧ eff.cbMin ≥ 1 := by
+  obtain ⟨t', eff, h⟩ := recv_total cfg .adv t (build sep (ofString "NOTIFY * HTTP/1.1") hs) loc src now
+  exact ⟨t', eff, h, (dispatched_effect_closed cfg .adv t t' eff _ loc src now hnow hn h).2 _
+    (classify_built_alive cfg hpre sep hsep hs hwf hnts hman loc src now)⟩
+
+/-- non-vacuity: a three-header advertisement satisfies the hypotheses of `classify_built_alive` -/
+example :
+    let hs : List (Bytes × Bytes) :=
+      [(ofString "NT", ofString "upnp:rootdevice"), (ofString "Nts", ofString "ssdp:alive"),
+       (ofString "USN", ofString "uuid:d1::upnp:rootdevice")]
+    wfHeaders Gen.C01Ssdp.metaKeys hs = true
+    ∧ (hs.any fun p => lower p.1 == ofString "nts" && p.2 == ofString "ssdp:alive") = true
+    ∧ (hs.all fun p => lower p.1 != ofString "man") = true := by decide +kernel
 
 /-! ### each repair is necessary: one raising datagram per unrepaired variant
 
